@@ -131,7 +131,7 @@ Proof. vm_compute. repeat split; discriminate. Qed.
 (* Gen/EnvSites.v is translated from the source on every run: get_workflow_environment_dict and the
    environment layer of every ContextView(...) construction.  For every root environment E, every tree
    depth d, every execution e of the tree and every site that builds the context of an expression of a
-   workflow / task / action (all sites but the three named in Model/EnvTree.v exempt_sites), env() is E *)
+   workflow / task / action (all sites but the two named in Model/EnvTree.v exempt_sites), env() is E *)
 Require Import Mistral.Gen.EnvSites Mistral.Model.EnvTree Mistral.Proofs.EnvTreeProofs.
 
 Theorem C09_env_root_everywhere : forall i E d e s,
